@@ -623,6 +623,11 @@ pub enum TextSpace {
     Nest {
         cases: Vec<(&'static str, usize)>,
     },
+    /// Every corpus program with one token of the full alphabet inserted at one site.
+    Ins {
+        progs: Vec<(&'static Prog, u64)>,
+        total: u64,
+    },
 }
 
 /// Phase parameter of a sequence space.
@@ -641,6 +646,9 @@ pub fn p_corpus() -> Value {
 /// Mutants with exactly `dev` deviations of the corpus programs of at most `max_tokens` tokens.
 pub fn p_mut(dev: usize, max_tokens: usize) -> Value {
     json!({"space": "mut", "deviations": dev, "max_tokens": max_tokens})
+}
+pub fn p_ins(max_tokens: usize) -> Value {
+    json!({"space": "ins", "max_tokens": max_tokens})
 }
 pub fn p_nest(thorough: bool) -> Value {
     json!({"space": "nest", "depths": if thorough { "all 1..=200, chains 1..=200 and 500..10000, digits 1..=40" } else { "1,2,3,5,10,50,200; chains also 1000,10000; digits 1..=40" }, "thorough": thorough})
@@ -678,6 +686,16 @@ impl TextSpace {
                 }
                 TextSpace::Mut { dev, progs, total }
             }
+            "ins" => {
+                let max = p["max_tokens"].as_u64().unwrap() as usize;
+                let mut progs = Vec::new();
+                let mut total = 0u64;
+                for pr in corpus().iter().filter(|pr| pr.toks.len() <= max) {
+                    progs.push((pr, total));
+                    total += ((pr.toks.len() + 1) * TOKENS.len()) as u64;
+                }
+                TextSpace::Ins { progs, total }
+            }
             "nest" => TextSpace::Nest {
                 cases: nest_cases(p["thorough"].as_bool().unwrap_or(false)),
             },
@@ -695,6 +713,7 @@ impl TextSpace {
             TextSpace::Corpus => 2 * corpus().len() as u64,
             TextSpace::Mut { total, .. } => *total,
             TextSpace::Nest { cases } => cases.len() as u64,
+            TextSpace::Ins { total, .. } => *total,
         }
     }
 
@@ -740,6 +759,19 @@ impl TextSpace {
             TextSpace::Nest { cases } => {
                 let (name, d) = cases[idx as usize];
                 (family_text(name, d), format!("family {name} at {d}"))
+            }
+            TextSpace::Ins { progs, .. } => {
+                let k = progs.partition_point(|(_, base)| *base <= idx) - 1;
+                let (p, base) = progs[k];
+                let local = (idx - base) as usize;
+                let (site, tok) = (local / TOKENS.len(), local % TOKENS.len());
+                let mut toks = p.toks.clone();
+                toks.insert(site, (TOKENS[tok].to_owned(), " ".to_owned()));
+                // the token now before the inserted one needs a separator too
+                if site > 0 && toks[site - 1].1.is_empty() {
+                    toks[site - 1].1 = " ".to_owned();
+                }
+                (render(&p.prefix, &toks), format!("{} with {:?} inserted before token {site}", p.name, TOKENS[tok]))
             }
         }
     }
